@@ -2,9 +2,10 @@
    Statements only; every proof is [exact <lemma>] (proofs/Framing_proofs.v, proofs/Varint_proofs.v).
    Model: model/Framing.v (msgio length-prefixed frames, StreamMsg{data|error}, incremental reader).
    Non-vacuity: ex_typed, ex_session, ex_neither, ex_negative_code, ex_limit, ex_chunking_dead,
-   ex_oversized, ex_epilogue, ex_header, ex_covered_cases (Framing_proofs), varint_examples, utf8_examples (Varint_proofs). *)
+   ex_oversized, ex_epilogue, ex_header, ex_covered_cases (Framing_proofs),
+   ex_wire_bid, ex_wire_nested, ex_roundtrip_concrete, ex_checker_wire (ProtoWire_proofs), varint_examples, utf8_examples (Varint_proofs). *)
 From Coq Require Import String List NArith ZArith Bool.
-From MevVerif Require Import lib.Bytes lib.Varint gen.Generated model.Framing check.Check_C13 proofs.Varint_proofs proofs.Framing_proofs.
+From MevVerif Require Import lib.Bytes lib.Varint gen.Generated model.Framing model.ProtoWire check.Check_C13 proofs.Varint_proofs proofs.Framing_proofs proofs.ProtoWire_proofs.
 Import ListNotations.
 Open Scope N_scope.
 
@@ -299,8 +300,134 @@ Theorem C13_prefix_roundtrip : forall body rest,
 Proof. exact parse1_frame. Qed.
 Print Assumptions C13_prefix_roundtrip.
 
-(* Outside these theorems (observed by the correspondence only): protobuf-go's own Marshal /
-   Unmarshal of the inner messages and of Header maps (premises of C13_roundtrip), skipping of
+(* ---- the protobuf wire format of the protocol messages themselves (model/ProtoWire.v) ----------
+   Message kinds: 0 handshake.v1.HandshakeReq, 1 HandshakeResp, 2 discovery.v1.PeerInfo,
+   3 preconfirmation.v1.Bid, 4 discovery.v1.PeerList, 5 preconfirmation.v1.PreConfirmation.
+   [wire_valid]: the values fit their Go types (strings valid UTF-8 as Marshal demands, int64
+   fields within int64, one value of the right sort per declared field). *)
+
+(* Unmarshal(Marshal m) = m for every valid message of every kind; the only size premise is that
+   the encoding is shorter than 2^64 bytes (any Go slice is). Marshal of a valid message does not
+   refuse and produces exactly [wire_enc m]. *)
+Theorem C13_wire_roundtrip : forall m : wmsg,
+  wire_valid m -> len_of (wire_enc m) < two64 ->
+  wire_marshal m = Some (wire_enc m) /\
+  wire_unmarshal (wire_kind m) (wire_enc m) = TOk m.
+Proof. intros m Hv Hl. split; [exact (wire_marshal_valid m Hv)|exact (wire_roundtrip m Hv Hl)]. Qed.
+Print Assumptions C13_wire_roundtrip.
+
+(* The same with named fields for a bid. *)
+Theorem C13_wire_roundtrip_bid : forall b : bid,
+  bid_in_range b -> len_of (encode_bid b) < two64 -> decode_bid (encode_bid b) = TOk b.
+Proof. exact decode_bid_enc. Qed.
+Print Assumptions C13_wire_roundtrip_bid.
+
+(* Decoding arbitrary bytes is bounded work: the field-list decoder consumes at least one byte per
+   field, so a budget of one step per input byte is always enough - any two budgets of at least
+   that size give the same result (a refusal is therefore never "ran out of budget"), and the
+   number of fields decoded never exceeds the number of input bytes.  The result type of every
+   decoder is [tri]: accepted, refused, or "start-group tag seen" (TUnspec, the one part of
+   protobuf-go's Unmarshal the model does not follow); there is no crash outcome. *)
+Theorem C13_wire_decode_bounded : forall (l : bytes) (fuel fuel' : nat),
+  (length l <= fuel)%nat -> (length l <= fuel')%nat ->
+  dec_fields_n fuel l = dec_fields_n fuel' l /\
+  (forall fs, dec_fields l = WFields fs -> (length fs <= length l)%nat).
+Proof.
+  intros l fuel fuel' H1 H2. split; [exact (dec_fields_budget fuel l fuel' H1 H2)|].
+  intros fs. exact (dec_fields_n_count (length l) l fs).
+Qed.
+Print Assumptions C13_wire_decode_bounded.
+
+(* Whatever bytes Unmarshal accepts, the message it yields is one Marshal accepts: right shape,
+   every string valid UTF-8, every int64 field within int64. *)
+Theorem C13_wire_decode_sound : forall (sc : schema) (b : bytes) (m : list fval),
+  decode_flat sc b = TOk m -> flat_ok sc m = true /\ Forall val_range m.
+Proof. exact decode_flat_sound. Qed.
+Print Assumptions C13_wire_decode_sound.
+
+(* The Go structs of the generated code (field lists regenerated from gen/go on every run) carry,
+   in declaration order, exactly the Go types of the modelled schemas; a field added, removed,
+   retyped or reordered in a .pb.go file breaks this equation.  Field numbers are not visible to
+   the extractor: they are tied by the wire-marshal / wire-unmarshal correspondence classes. *)
+Theorem C13_wire_structs_anchor :
+  field_types c13_pb_hsreq = schema_types hsreq_sc /\
+  field_types c13_pb_hsresp = schema_types hsresp_sc /\
+  field_types c13_pb_peerinfo = schema_types peerinfo_sc /\
+  field_types c13_pb_bid = schema_types bid_sc /\
+  field_types c13_pb_peerlist = [bos "[]*PeerInfo"] /\
+  field_types c13_pb_preconf = bos "*Bid" :: schema_types preconf_rest_sc.
+Proof. exact pb_structs_match_schemas. Qed.
+Print Assumptions C13_wire_structs_anchor.
+
+(* C13_roundtrip with the premise Unmarshal(Marshal x) = x discharged: a stream carrying valid
+   protocol messages of kind k, headers with distinct UTF-8 keys and non-OK status errors, under
+   any chunking, is read back as exactly that sequence - with the modelled protobuf codecs in the
+   place of the opaque marshal/unmarshal functions. *)
+Theorem C13_roundtrip_concrete : forall (k : N) (ts : list (titem wmsg (list hentry))) (cs : list bytes),
+  Forall (titem_ok wmsg (list hentry) wire_enc enc_header) ts ->
+  Forall (titem_valid wmsg (list hentry) (wire_of_kind k) header_valid) ts ->
+  concat cs = stream_of (map (lower wmsg (list hentry) wire_enc enc_header) ts) ->
+  let s := feed_chunks cs in
+  dead s = false /\ rbuf s = [] /\
+  Forall2 (tdelivered wmsg (list hentry) (wire_unmarshal_opt k) hdr_unmarshal) ts (out s).
+Proof. exact roundtrip_concrete. Qed.
+Print Assumptions C13_roundtrip_concrete.
+
+Theorem C13_roundtrip_concrete_bid : forall (ts : list (titem bid (list hentry))) (cs : list bytes),
+  Forall (titem_ok bid (list hentry) encode_bid enc_header) ts ->
+  Forall (titem_valid bid (list hentry) bid_in_range header_valid) ts ->
+  concat cs = stream_of (map (lower bid (list hentry) encode_bid enc_header) ts) ->
+  let s := feed_chunks cs in
+  dead s = false /\ rbuf s = [] /\
+  Forall2 (tdelivered bid (list hentry) bid_unmarshal hdr_unmarshal) ts (out s).
+Proof. exact roundtrip_concrete_bid. Qed.
+Print Assumptions C13_roundtrip_concrete_bid.
+
+Theorem C13_roundtrip_concrete_handshake_req : forall (ts : list (titem hsreq (list hentry))) (cs : list bytes),
+  Forall (titem_ok hsreq (list hentry) encode_hsreq enc_header) ts ->
+  Forall (titem_valid hsreq (list hentry) hsreq_in_range header_valid) ts ->
+  concat cs = stream_of (map (lower hsreq (list hentry) encode_hsreq enc_header) ts) ->
+  let s := feed_chunks cs in
+  dead s = false /\ rbuf s = [] /\
+  Forall2 (tdelivered hsreq (list hentry) hsreq_unmarshal hdr_unmarshal) ts (out s).
+Proof. exact roundtrip_concrete_hsreq. Qed.
+Print Assumptions C13_roundtrip_concrete_handshake_req.
+
+Theorem C13_roundtrip_concrete_handshake_resp : forall (ts : list (titem hsresp (list hentry))) (cs : list bytes),
+  Forall (titem_ok hsresp (list hentry) encode_hsresp enc_header) ts ->
+  Forall (titem_valid hsresp (list hentry) hsresp_in_range header_valid) ts ->
+  concat cs = stream_of (map (lower hsresp (list hentry) encode_hsresp enc_header) ts) ->
+  let s := feed_chunks cs in
+  dead s = false /\ rbuf s = [] /\
+  Forall2 (tdelivered hsresp (list hentry) hsresp_unmarshal hdr_unmarshal) ts (out s).
+Proof. exact roundtrip_concrete_hsresp. Qed.
+Print Assumptions C13_roundtrip_concrete_handshake_resp.
+
+(* The wire clauses of the checker accept the model: for every valid message the case the model
+   itself produces (marshal class) agrees with the model and trips no clause, and so does the
+   unmarshal class on ARBITRARY bytes.  And any marshal-class observation that agrees with the
+   model, with the real Unmarshal giving the message back, is reported clean - the half of the
+   clause that reads the implementation's bytes with the wire format as specified follows from
+   C13_wire_roundtrip. *)
+Theorem C13_checker_accepts_model_wire : forall m : wmsg,
+  wire_valid m -> len_of (wire_enc m) < two64 ->
+  let c := WireEnc m (wire_marshal m) (Some m) in
+  agrees c = true /\ violation c = [] /\
+  forall k l, agrees (WireDec k l (opt_of (wire_unmarshal k l))) = true /\
+              violation (WireDec k l (opt_of (wire_unmarshal k l))) = [].
+Proof. exact checker_accepts_model_wire. Qed.
+Print Assumptions C13_checker_accepts_model_wire.
+
+Theorem C13_checker_accepts_agreeing_wire_enc : forall (m : wmsg) (got : option bytes),
+  wire_valid m -> len_of (wire_enc m) < two64 ->
+  agrees (WireEnc m got (Some m)) = true -> violation (WireEnc m got (Some m)) = [].
+Proof. exact checker_accepts_agreeing_wire_enc. Qed.
+Print Assumptions C13_checker_accepts_agreeing_wire_enc.
+
+(* Outside these theorems (observed by the correspondence only): that protobuf-go's Marshal /
+   Unmarshal of the six protocol message kinds IS model/ProtoWire.v (driver classes wire-marshal and
+   wire-unmarshal), its Marshal / Unmarshal of any other inner message type and the entry order
+   of Header maps (premises of C13_roundtrip), skipping of
    group-typed unknown fields (RUnspec), reads abandoned through context cancellation (the
    pending goroutine swallows the next frame), writes abandoned through context cancellation
    (WriteMsg may return ctx.Err() although the frame is still written), Unmarshal of the Values
